@@ -129,6 +129,9 @@ type Layout struct {
 	Commas   bool   `json:"commas,omitempty"`
 	BOM      bool   `json:"bom,omitempty"`
 	Indent   int    `json:"indent,omitempty"`
+	// HeaderNL: the name of a named operation is the last thing on its line (variable definitions,
+	// directives and the selection set start on the next one)
+	HeaderNL bool `json:"header_nl,omitempty"`
 }
 
 // Span is the region of a selection's own tokens (alias/name/arguments/directives).
@@ -303,6 +306,9 @@ func (d *Doc) Render(lay Layout) *Rendered {
 				w.raw(o.Type)
 				if o.Name != "" {
 					w.raw(" " + o.Name)
+					if lay.HeaderNL {
+						w.raw(w.nl)
+					}
 				}
 				if len(o.Vars) > 0 {
 					w.raw("(")
